@@ -88,25 +88,26 @@ type pend struct {
 }
 
 type stats struct {
-	frames       map[string]int64
-	kinds        map[string]int64
-	rst          map[string]int64
-	goaway       map[string]int64
-	fences       int64
-	starts       int64
-	responses    int64
-	resp4xx      int64
-	settingsAck  int64
-	pingAck      int64
-	benignRST    int64
-	probes       int64
-	probesSent   int64
-	holds        int64
-	queuedStart  int64
-	superseded   int64
-	srvReturned  int64
-	srvLingering int64
-	silentDead   int64
+	frames              map[string]int64
+	kinds               map[string]int64
+	rst                 map[string]int64
+	goaway              map[string]int64
+	fences              int64
+	starts              int64
+	responses           int64
+	resp4xx             int64
+	settingsAck         int64
+	pingAck             int64
+	benignRST           int64
+	probes              int64
+	probesSent          int64
+	holds               int64
+	queuedStart         int64
+	superseded          int64
+	srvReturned         int64
+	srvLingering        int64
+	silentDead          int64
+	fenceBeforeSettings int64
 }
 
 func newStats() *stats {
@@ -699,6 +700,12 @@ func (c *conn) judge(upto int) {
 			}
 		}()
 	}
+	if j < len(reacts) && !c.ref.SawSettings && reacts[j].kind == h2peer.OutConnErr && reacts[j].code == http2.ErrCodeProtocol {
+		// The first frame drew only a stream error, so the connection still waits for
+		// SETTINGS (3.4) - and the next frame it saw was our own fence PING.
+		c.st.fenceBeforeSettings++
+		j++
+	}
 	if j < len(reacts) {
 		r := reacts[j]
 		cls := "unexpected-error:" + c.lastLabelKind()
@@ -717,12 +724,20 @@ func (c *conn) judge(upto int) {
 			c.violate("settings-not-acked", "%d SETTINGS frame(s) accepted in this group but only %d SETTINGS ACK(s) before the fence", needSettingsAck, settingsAcks)
 			return
 		}
-		for _, d := range needPing {
-			if pingAcks[d] == 0 {
-				c.violate("ping-not-acked", "PING %x accepted but no ACK with that payload before the fence", d)
-				return
-			}
+	}
+	for _, d := range needPing {
+		if pingAcks[d] > 0 {
 			pingAcks[d]--
+		} else if !c.dead && !c.eof {
+			c.violate("ping-not-acked", "PING %x accepted but no ACK with that payload before the fence", d)
+			return
+		}
+	}
+	for d, n := range pingAcks {
+		if n > 0 {
+			// 6.7: "An endpoint MUST NOT respond to PING frames containing [the ACK] flag"
+			c.violate("ping-ack-unsolicited", "the server sent PING ACK %x which answers no PING of this group", d)
+			return
 		}
 	}
 	if settingsAcks > needSettingsAck {
